@@ -120,6 +120,9 @@ def c_rb(r, h):
     if k == "rbf": return "(RBF %s %s)" % (c_ab(r[1], h), c_cm(r[2], h))
     if k in ("agg", "slice"): return "(Agg [%s])" % "; ".join(c_rb(x, h) for x in r[1])
     if k == "boxed": return c_rb(r[1], h)
+    # a user-defined request bound that forwards the required methods only: the provided service_needed is the sum of the job costs,
+    # service_needed_by_n_jobs the sum of the n largest -- what the model's sn / snn compute (C16_job_costs_sum_to_service_needed)
+    if k == "default_rb": return c_rb(r[1], h)
     raise ValueError("RB " + sx(r))
 
 def c_rbs(l, h):
@@ -189,6 +192,11 @@ def to_coq(q, dbg=True):
     elif k == "prefixsteps":
         p = c_prefix(q[1], h); b = "OL (fst %s :: flat_pairs (snd %s))" % (p, p)
     elif k == "hist": b = "OL (hist %s %s)" % (c_curve(q[1], h), c_hops(q[2]))
+    # (default_cm X): a user-defined cost model that forwards job_cost_iter only -- the trait's PROVIDED methods are modelled by their
+    # definitions: cost_of_jobs(n) = sum, least_wcet(n) = minimum (0 if empty) of the first n items of job_cost_iter
+    elif k == "cost" and q[1][0] == "default_cm": b = "ON (sumN (job_costs %s %d))" % (c_cm(q[1][1], h), q[2])
+    elif k == "least" and q[1][0] == "default_cm": b = "ON (minN_or 0 (job_costs %s %d))" % (c_cm(q[1][1], h), q[2])
+    elif k == "jobcosts" and q[1][0] == "default_cm": b = "OL (job_costs %s %d)" % (c_cm(q[1][1], h), q[2])
     elif k == "cost": b = "ON (cost_of_jobs %s %d)" % (c_cm(q[1], h), q[2])
     elif k == "least": b = "ON (least_wcet %s %d)" % (c_cm(q[1], h), q[2])
     elif k == "jobcosts": b = "OL (job_costs %s %d)" % (c_cm(q[1], h), q[2])
